@@ -51,6 +51,7 @@ class Conn(object):
     self.write_blocked = False
     self.peer = None
     self.watcher = vloop.FakeWatcher(net.lp)
+    self.waiters = []
     self.client_closed = False
     self.activity = 0        # I/O calls made by the client on this connection
     self.offered_at = -1     # activity value when faults were last offered
@@ -62,7 +63,18 @@ class Conn(object):
     self.fail_kind = None
 
   def wake(self):
-    self.watcher.trigger()
+    # every blocked operation on this connection (a reader and a writer can be blocked at the same time) re-checks
+    ws = list(self.waiters)
+    writers = [w for w in ws if getattr(w, 'kind', '') == 'send']
+    if len(writers) > 1:
+      # two greenlets are blocked writing to the same socket: which one the kernel lets through first is not defined
+      from . import world
+      if world.chooser() is not None:
+        i = world.choose(['c%d: blocked writer #%d proceeds first' % (self.id, k) for k in range(len(writers))], 'rand')
+        first = writers[i]
+        ws = [first] + [w for w in ws if w is not first]
+    for w in ws:
+      w.trigger()
 
   def mark_fault(self):
     if self.first_fault_time is None:
@@ -189,6 +201,15 @@ class Net(object):
     elif kind == 'block-writes-partial':
       conn.write_blocked = True
       conn.block_after = 6
+    elif kind == 'block-writes-partial-long':
+      # the peer stops draining for 33 s after 6 more bytes (long enough for periodic traffic such as pings to come due)
+      conn.write_blocked = True
+      conn.block_after = 6
+
+      def unblock(c=conn):
+        c.write_blocked = False
+        c.wake()
+      self.lp.timer(33.0).start(unblock)
     elif kind == 'unblock-writes':
       conn.write_blocked = False
     conn.wake()
@@ -242,8 +263,14 @@ class FakeSock(object):
       return faults.get(idx)
     return None
 
-  def _wait(self, c):
-    vloop.hub().wait(c.watcher)
+  def _wait(self, c, kind='recv'):
+    w = vloop.FakeWatcher(self.net.lp)
+    w.kind = kind
+    c.waiters.append(w)
+    try:
+      vloop.hub().wait(w)
+    finally:
+      c.waiters.remove(w)
 
   def connect(self, addr):
     net = self.net
@@ -307,7 +334,7 @@ class FakeSock(object):
       if c.peer is not None:
         c.peer.feed(head)
     while c.write_blocked and not self.closed and not c.reset:
-      self._wait(c)              # back-pressure: the kernel buffer is full
+      self._wait(c, 'send')      # back-pressure: the kernel buffer is full
     if self.closed:
       raise _err(errno.EBADF, 'Bad file descriptor')
     if c.reset:
